@@ -86,3 +86,22 @@ Theorem C01_multilinear_division_exact :
     mle_eval r t - mle_eval r z = qsum t z r.
 Proof. exact @mle_division_exact. Qed.
 Print Assumptions C01_multilinear_division_exact.
+
+(* Sonic: whenever every commitment times the shift element of its degree bound is the plain commitment
+   h * (g p(beta) + gamma r(beta)) - which is what trim and commit are compared against on every run, for bounded and
+   unbounded, hiding and non-hiding polynomials - the single proof the prover computes for the challenge-weighted
+   combination is accepted for the true values, with the verifier consuming the same number of challenges *)
+From PC Require Import Schemes.Marlin Schemes.Sonic Proofs.MarlinComplete Proofs.SonicFacts.
+Theorem C01_sonic_check_complete_partial :
+  forall (FO : FieldOps) (FL : FieldLaws FO) g gam h beta n m ck vk (items : list (LPoly * Rand)) cs z chal pf rest,
+    sck_g ck = gpowers g 1 beta n -> sck_gamma ck = gpowers gam 1 beta m ->
+    svk_vk vk = {| vk_g := g; vk_gamma_g := gam; vk_h := h; vk_beta_h := h * beta |} ->
+    length cs = length items ->
+    Forall (fun it => (length (snd it) <= m)%nat) items ->
+    (exists sps, Forall2 (fun cb sp => shift_power vk (snd cb) = Ok sp) cs sps /\
+                 map (fun csp => fst (fst csp) * snd csp) (combine cs sps)
+                 = map (fun it => h * (g * eval (lp_poly (fst it)) beta + gam * eval (snd it) beta)) items) ->
+    s_open ck items z chal = Ok (pf, rest) ->
+    s_check vk cs z (map (fun it => eval (lp_poly (fst it)) z) items) pf chal = Ok (true, rest).
+Proof. exact @sonic_check_complete. Qed.
+Print Assumptions C01_sonic_check_complete_partial.
